@@ -248,6 +248,8 @@ def nat_concat_mismatch(params, model):
 # ---------------------------------------------------------------------------- merge
 DT_A = np.dtype([("time", np.int64), ("endtime", np.int64), ("id", np.int64), ("x", np.int64)])
 DT_B = np.dtype([("time", np.int64), ("endtime", np.int64), ("id", np.int64), ("y", np.int64), ("x", np.int64)])
+# 'narrow' variant: the shared column x is int16 in the first data type and int64 in the second
+DT_A16 = np.dtype([("time", np.int64), ("endtime", np.int64), ("id", np.int64), ("x", np.int16)])
 
 
 def sym_merge(n, variant):
@@ -268,6 +270,13 @@ def sym_merge(n, variant):
     b = arrays.make(DT_B, n2)
     xs_a = [fresh_int(f"xa{i}") for i in range(n)]
     xs_b = [fresh_int(f"xb{i}") for i in range(n2)]
+    if variant == "narrow":
+        # values of the shared column that fit the second array's int64 but not the first one's int16: either the merge
+        # is refused or the later array's values survive unchanged (decided natively: the proxies have no width)
+        for v in xs_b:
+            assume(sand(v >= 2**15, v < 2**31))
+        for v in xs_a:
+            assume(sand(v >= 0, v < 2**15))
     for i in range(n):
         a["time"][i], a["endtime"][i], a["id"][i], a["x"][i] = ts[i], es[i], i, xs_a[i]
     for i in range(n2):
@@ -281,8 +290,10 @@ def sym_merge(n, variant):
     cb = strax.Chunk(data_type="b", data_kind="k2" if variant == "kind" else "k", dtype=arrays.obj_dtype(DT_B),
                      run_id="1" if variant == "run" else "0", start=S2, end=E2, data=b)
     same_range = sand(S1 == S2, E1 == E2)
-    must_accept = sand(same_range, variant == "ok")
+    must_accept = sand(same_range, variant in ("ok", "narrow"))
     raised, r = H.expect_raises(ValueError, strax.Chunk.merge, [ca, cb], "m")
+    if variant == "narrow" and raised:
+        return "rejected"  # refusing columns of different dtype is fine
     prove(iff(snot(must_accept), raised) if core.is_sym(must_accept) else (not must_accept) == raised,
           f"merge:{variant} accepts iff equal length/range/kind/run (raised={raised})")
     if raised:
@@ -301,7 +312,8 @@ def nat_merge(params, model):
 
     n, variant = params["n"], params["variant"]
     n2 = n + 1 if variant == "len" else n
-    a = np.zeros(n, DT_A); b = np.zeros(n2, DT_B)
+    dta = DT_A16 if variant == "narrow" else DT_A
+    a = np.zeros(n, dta); b = np.zeros(n2, DT_B)
     lo = max(model["S1"], model["S2"])
     for i in range(n):
         a[i] = (model[f"at{i}"], model[f"ae{i}"], i, model[f"xa{i}"])
@@ -309,17 +321,20 @@ def nat_merge(params, model):
         j = min(i, n - 1) if n else 0
         b[i] = (model[f"at{j}"] if n else lo, model[f"ae{j}"] if n else lo, i, 7, model[f"xb{i}"])
     try:
-        ca = strax.Chunk(data_type="a", data_kind="k", dtype=DT_A, run_id="0", start=model["S1"], end=model["E1"], data=a)
+        ca = strax.Chunk(data_type="a", data_kind="k", dtype=dta, run_id="0", start=model["S1"], end=model["E1"], data=a)
         cb = strax.Chunk(data_type="b", data_kind="k2" if variant == "kind" else "k", dtype=DT_B,
                          run_id="1" if variant == "run" else "0", start=model["S2"], end=model["E2"], data=b)
     except ValueError as e:
         return {"ok": None, "detail": f"precondition not met natively: {e}"}
-    must = variant == "ok" and model["S1"] == model["S2"] and model["E1"] == model["E2"]
+    must = variant in ("ok", "narrow") and model["S1"] == model["S2"] and model["E1"] == model["E2"]
     raised, r = H.expect_raises(ValueError, strax.Chunk.merge, [ca, cb], "m")
     if raised:
-        return {"ok": not must, "detail": f"rejected must_accept={must}"}
-    ok = must and [int(v) for v in r.data["x"]] == [model[f"xb{i}"] for i in range(n)]
-    return {"ok": ok, "detail": f"accepted must_accept={must}"}
+        return {"ok": (not must) or variant == "narrow", "detail": f"rejected must_accept={must}"}
+    got = [int(v) for v in r.data["x"]]
+    ok = must and got == [model[f"xb{i}"] for i in range(n)]
+    return {"ok": ok, "label": "merge:shared column of different dtype silently cast" if variant == "narrow" else None,
+            "detail": f"accepted must_accept={must}; merged x = {got} ({r.data.dtype['x']}), later array has "
+                      f"{[model[f'xb{i}'] for i in range(n)]}"}
 
 
 # ---------------------------------------------------------------------------- sub/superrun bookkeeping
@@ -542,7 +557,8 @@ OBLIGATIONS = [
        nat_concat, setup=_setup, doc="accept iff in order and non-overlapping"),
     Ob("concat_mismatch", sym_concat_mismatch, lambda tier: [dict(kind="data_type"), dict(kind="run_id")],
        nat_concat_mismatch, setup=_setup),
-    Ob("merge", sym_merge, lambda tier: [dict(n=n, variant=v) for n in (0, 1, 2) for v in ("ok", "len", "kind", "run")],
+    Ob("merge", sym_merge, lambda tier: [dict(n=n, variant=v) for n in (0, 1, 2) for v in ("ok", "len", "kind", "run")] +
+       [dict(n=1, variant="narrow"), dict(n=2, variant="narrow")],
        nat_merge, setup=_setup, doc="accept iff equal length/range/kind/run; later array wins"),
     Ob("super_split", sym_super_split, lambda tier: [dict(nruns=n) for n in ((1, 2, 3, 4) if tier == "quick" else (1, 2, 3, 4, 5))],
        nat_super_split, setup=_setup, witnesses=1,
